@@ -444,7 +444,9 @@ where
     let t = DenseGauss::random(g, d, 10.0);
     let (r, n) = if ctx.thorough { (2048, 2000) } else { (512, 600) };
     let l = g.range(2, 10);
-    let eps = g.uniform(0.1, 0.35);
+    // up to the edge of the stable range (largest frequency sqrt(sqrt(10)) = 1.78): a good share of
+    // proposals is rejected there, which is where errors in the accept/reject bookkeeping bias the draws
+    let eps = g.uniform(0.15, 1.2) / 1.78;
     let seed = g.next_u64();
     let inits: Vec<Vec<T>> = (0..r).map(|_| t.draw(g).iter().map(|x| T::of(*x)).collect()).collect();
     let cfg = json!({"sampler": "HMC", "T": T::NAME, "backend": bname, "target": t.name(), "rows_as_replicates": r, "draws_per_row": n, "L": l, "step_size": eps, "seed": seed});
